@@ -1237,6 +1237,35 @@ func (c *cenv) call(e *ast.CallExpr) Val {
 			}
 			_, ok := c.st.ghost[mid.Name+".0"]
 			return bval(fmt.Sprint(ok))
+		case "purecall":
+			// purecall(f, args...): the (first) result of the Go function f, which carries a `pure` contract
+			fid, ok1 := e.Args[0].(*ast.Ident)
+			if !ok1 || c.pkg == nil {
+				return c.fail("purecall(function, args...)")
+			}
+			f, err := fv.eng.resolveFunc(c.pkg.Path(), fid.Name)
+			if err != nil || f == nil {
+				return c.fail("purecall: no function %s", fid.Name)
+			}
+			if ct := fv.eng.contracts[f]; ct == nil || !ct.Pure {
+				return c.fail("purecall: %s has no pure contract", fid.Name)
+			}
+			var sorts, terms []string
+			for _, a := range e.Args[1:] {
+				v := c.expr(a)
+				if v.K == KStruct || v.K == KTuple {
+					return c.fail("purecall: aggregate argument")
+				}
+				sorts = append(sorts, v.sortOf())
+				terms = append(terms, v.T)
+			}
+			rt := f.Signature.Results().At(0).Type()
+			k, w, srt := kindOf(rt)
+			v := Val{K: k, W: w, Sort: srt, Typ: rt}
+			uf := fmt.Sprintf("uf_%s_%d", sanitize(funcKey(f)), 0)
+			fv.declUF(uf, sorts, v.sortOf())
+			v.T = "(" + uf + " " + strings.Join(terms, " ") + ")"
+			return v
 		case "calledfn":
 			// calledfn(f): function/method f was called (statically) on this path
 			fid, ok1 := e.Args[0].(*ast.Ident)
